@@ -734,6 +734,31 @@ class Account:
             return a
 
 
+class My__Box:
+    """A class name that contains a double underscore itself."""
+
+    def __init__(self):
+        self.__limit = 1
+
+    @icontract.require(lambda self, a: self.__limit > a, description="D:dunder-in-class-name"{ek})
+    def put(self, a):
+        return a
+
+    @icontract.require(lambda self, a: all(x + self.__limit > a for x in [0, 1]), description="D:dunder-in-class-name-genexp"{ek})
+    def put_all(self, a):
+        return a
+
+
+class Multi:
+    def __init__(self):
+        self.__a = 1
+        self.__b__c = 1
+
+    @icontract.require(lambda self, a: self.__a > a and self.__b__c > a, description="D:two-private-names"{ek})
+    def both(self, a):
+        return a
+
+
 class _Hidden:
     def __init__(self):
         self.__v = 1
@@ -754,7 +779,9 @@ def run_private_names(w) -> None:
         try:
             targets = [("attr", mod.Account().attr), ("in-iterable", mod.Account().in_iterable), ("in-comprehension", mod.Account().in_comprehension),
                        ("guarded", mod.Account().guarded), ("post", mod.Account().post), ("global", mod.Account().global_name),
-                       ("nested-class", mod.Account.Inner().nested), ("underscored-class", mod._Hidden().underscored)]  # pylint: disable=protected-access
+                       ("nested-class", mod.Account.Inner().nested), ("underscored-class", mod._Hidden().underscored),  # pylint: disable=protected-access
+                       ("dunder-in-class-name", mod.My__Box().put), ("dunder-in-class-name-genexp", mod.My__Box().put_all),
+                       ("two-private-names", mod.Multi().both)]
             for tag, fn in targets:
                 for arg in (4, 0):
                     w.count("violating_calls")
@@ -785,6 +812,85 @@ def run_private_names(w) -> None:
             loaded.unload()
 
 
+STRING_LITERAL_SOURCE = '''
+import icontract
+
+
+class ErrS(Exception):
+    pass
+
+
+@icontract.require(lambda s: s == """top
+    level""", description="D:top"{ek})
+def top(s):
+    return s
+
+
+class Holder:
+    @icontract.require(lambda s: s == """first
+        second
+    third""", description="D:method"{ek})
+    def method(self, s):
+        return s
+
+    class Inner:
+        @icontract.require(lambda s: len(s) > len("""x
+                y"""), description="D:inner"{ek})
+        def method(self, s):
+            return s
+
+
+def factory():
+    @icontract.ensure(lambda result: result != \'\'\'p
+        q\'\'\', description="D:closure"{ek})
+    def made(s):
+        return s
+    return made
+'''
+
+
+def run_string_literals(w) -> None:
+    """Multi-line string literals inside the condition of an indented decorator: the reported text is the expression evaluated."""
+    import icontract  # pylint: disable=import-outside-toplevel
+
+    for form, ek in (("default", ""), ("class", ", error=ErrS")):
+        loaded = prog.load_source(STRING_LITERAL_SOURCE.replace("{ek}", ek), w.scratch())
+        mod = loaded.module
+        try:
+            for tag, fn, arg, want_const in (("top", mod.top, "zz", "top\n    level"), ("method", mod.Holder().method, "zz", "first\n        second\n    third"),
+                                            ("inner", mod.Holder.Inner().method, "", "x\n                y"), ("closure", mod.factory(), "p\n        q", "p\n        q")):
+                w.count("violating_calls")
+                w.count("string_literal_conditions")
+                w.case(("string-literal", tag, form))
+                case = {"string_literal": tag, "form": form}
+                try:
+                    fn(arg)
+                    exc = None
+                except BaseException as err:  # pylint: disable=broad-except
+                    exc = err
+                want = icontract.ViolationError if form == "default" else mod.ErrS
+                if type(exc) is not want:
+                    w.violation("C07/violation-replaced-by-other-exception", "string literal scenario {}: expected {} got {!r}".format(tag, want.__name__, exc), case)
+                    continue
+                msg = str(exc) if form == "default" else str(exc.args[0])
+                body = msg.split("D:{}: ".format(tag), 1)[-1]
+                # the condition text runs up to a ':' that is followed by the value entries (on the same line or on the next ones)
+                consts = None
+                for pos in [k for k, ch in enumerate(body) if ch == ":"]:
+                    try:
+                        tree = ast.parse("(" + body[:pos] + ")", mode="eval")
+                    except SyntaxError:
+                        continue
+                    consts = [n.value for n in ast.walk(tree) if isinstance(n, ast.Constant) and isinstance(n.value, str)]
+                    break
+                if consts is None or want_const not in consts:
+                    w.violation("C07/string-literal-of-the-condition-altered-in-the-message", "scenario {}: the reported condition text does not "
+                                "parse to the expression that was evaluated: its string constants are {!r}, the source has {!r}".format(
+                                    tag, consts, want_const), case, {"message": msg})
+        finally:
+            loaded.unload()
+
+
 def run(w) -> None:
     install_hook()
     all_layouts = layouts()
@@ -798,6 +904,8 @@ def run(w) -> None:
         run_invariant_layouts(w)
     if w.shard == 1 % w.nshards:
         run_private_names(w)
+    if w.shard == 2 % w.nshards:
+        run_string_literals(w)
     w.exhaustive = False
 
 
@@ -805,6 +913,9 @@ def replay(case, w) -> None:
     install_hook()
     if "private_name" in case:
         run_private_names(w)
+        return
+    if "string_literal" in case:
+        run_string_literals(w)
         return
     if "invariant" in case:
         run_invariant_layouts(w)
